@@ -385,6 +385,10 @@ def r4(R, repo):
   mod = repo.mod(SL)
   M = mod.func('merge_state')
   loops = [n for n in astu.body_walk(M.node) if isinstance(n, ast.For)]
+  sd = [x for lp_ in loops for x in ast.walk(lp_) if isinstance(x, ast.Call) and astu.call_tail(x) == 'setdefault' and isinstance(x.func.value, ast.Name)]
+  if sd and any(isinstance(lp_.iter, ast.Name) for lp_ in loops):
+    R.fail(key_of(M, 'later states win'), (M, sd[0]), '`%s` keeps the value that is already there: the *first* state that has a path wins, so `a | b`, State.merge and nnx.update(node, state, overrides) no longer let the later state override the earlier one' % astu.short(sd[0]))
+    loops = [lp_ for lp_ in loops if not any(x is sd[0] for x in ast.walk(lp_))][:1] or loops[:1]
   if len(loops) != 1:
     R.unsure(key_of(M, 'later states win'), M, 'merge_state no longer folds the states one by one with dict.update in argument order (later states must win on overlapping paths)')
     loops = None
